@@ -71,6 +71,12 @@ func genC20(t *tape.Tape, tier string) any {
 			c.Conns[i].Bytes = per + t.Intn(5000)
 		}
 	}
+	if c.WriteLimit > 0 && t.Chance(1, 3) {
+		// slow peers on the limited direction: a byte now and then through a tunnel, for as long as the transfers run
+		for k := 1 + t.Intn(3); k > 0; k-- {
+			c.Conns = append(c.Conns, c20Conn{Kind: "trickle-up", Bytes: 50 + t.Intn(100)}) // Bytes = pause between bytes in ms
+		}
+	}
 	c.WOne = 0
 	c.WRand = t.Pick(3, 2) * 2
 	return c
@@ -188,7 +194,7 @@ func runC20(env *core.Env, ci any) {
 	})
 	// tunnel target on port 7000+i
 	for i, cn := range c.Conns {
-		if !strings.HasPrefix(cn.Kind, "tunnel") {
+		if !strings.HasPrefix(cn.Kind, "tunnel") && cn.Kind != "trickle-up" {
 			continue
 		}
 		i, cn := i, cn
@@ -221,7 +227,9 @@ func runC20(env *core.Env, ci any) {
 						mu.Unlock()
 					}
 					got += k
-					up.add(k)
+					if cn.Kind != "trickle-up" { // (the trickle is not counted: that only loosens the bound)
+						up.add(k)
+					}
 				}
 				if err != nil {
 					return
@@ -249,17 +257,28 @@ func runC20(env *core.Env, ci any) {
 	var phase1 sync.WaitGroup
 	phase1Done := make(chan struct{})
 	for _, cn := range c.Conns {
-		if twoPhases && isUp(cn.Kind) == firstPhaseUp {
+		if twoPhases && cn.Kind != "trickle-up" && isUp(cn.Kind) == firstPhaseUp {
 			phase1.Add(1)
 		}
 	}
 	go func() { phase1.Wait(); close(phase1Done) }()
+	var mainWG sync.WaitGroup
+	mainDone := make(chan struct{})
+	for _, cn := range c.Conns {
+		if cn.Kind != "trickle-up" {
+			mainWG.Add(1)
+		}
+	}
+	go func() { mainWG.Wait(); close(mainDone) }()
 	for i := range c.Conns {
 		i := i
 		cn := c.Conns[i]
 		tok := fmt.Sprintf("tk%dz", i+1)
 		env.Sched.Go(func() {
-			if twoPhases {
+			if cn.Kind != "trickle-up" {
+				defer mainWG.Done()
+			}
+			if twoPhases && cn.Kind != "trickle-up" {
 				if isUp(cn.Kind) == firstPhaseUp {
 					defer phase1.Done()
 				} else {
@@ -330,6 +349,27 @@ func runC20(env *core.Env, ci any) {
 					return
 				}
 				done[i] = cn.Bytes
+			case "trickle-up":
+				fmt.Fprintf(conn, "CONNECT %s:%d HTTP/1.1\r\nHost: %s:%d\r\n\r\n", ipTarget, 7000+i, ipTarget, 7000+i)
+				m, err := h1.ReadResponse(br, "CONNECT")
+				if err != nil || m.Status != 200 {
+					fails[i] = fmt.Sprintf("CONNECT: %v", err)
+					return
+				}
+				env.Fault("slow-peer-on-limited-listener")
+				for off := 0; ; off++ {
+					select {
+					case <-mainDone:
+						done[i] = off
+						return
+					default:
+					}
+					if _, err := conn.Write(streamBytes(tokenSeed(tok), off, 1)); err != nil {
+						fails[i] = "write: " + err.Error()
+						return
+					}
+					time.Sleep(time.Duration(cn.Bytes) * time.Millisecond)
+				}
 			case "tunnel-down", "tunnel-up":
 				fmt.Fprintf(conn, "CONNECT %s:%d HTTP/1.1\r\nHost: %s:%d\r\n\r\n", ipTarget, 7000+i, ipTarget, 7000+i)
 				m, err := h1.ReadResponse(br, "CONNECT")
@@ -378,6 +418,7 @@ func runC20(env *core.Env, ci any) {
 		if cn.Kind == "upload" || cn.Kind == "tunnel-up" {
 			wantUp += int64(cn.Bytes)
 		}
+		_ = cn
 	}
 	if out == 0 && up.total != wantUp {
 		env.Fail("limit-data", "upload", "clients uploaded %d bytes, %d arrived beyond the proxy", wantUp, up.total)
